@@ -17,6 +17,7 @@
   address `base c + 8 * w`.
 -/
 import CimbaModel.Mempool.Spec
+import CimbaModel.Mempool.GenTie
 
 namespace CimbaModel.Props.C20
 open CimbaModel.Mempool
@@ -41,6 +42,28 @@ theorem expand_ok {cfg : Cfg} (hcfg : CfgOK cfg) {s : MP} {live : List Addr} (h 
     ∃ s', expand cfg s = .ok s' ∧ Inv cfg s' (objsFrom s.mem.size 0 (s.objSz / 8) s.incrNum) live := by
   obtain ⟨s', h1, h2, _⟩ := expand_inv hcfg h
   exact ⟨s', h1, h2⟩
+
+/-! ### the model's size arithmetic is the code's: `Generated.Mempool.initialize_sizes` / `initialize_asserts` /
+    `chunk_list_size` are re-extracted from the C AST of `cmi_mempool_initialize` on every run (tools/gen_pool.py) -/
+
+/-- the model's initialisation succeeds exactly when the release asserts of the C function hold (and `obj_sz ≠ 0`:
+    the C code divides by `obj_sz`) -/
+theorem initialize_asserts_are_the_codes (cfg : Cfg) (s : MP) (sz num : Nat) :
+    (∃ s', initPool cfg s sz num = .ok s') ↔
+      (CimbaModel.Generated.Mempool.initialize_asserts sz num = true ∧ sz ≠ 0) :=
+  initPool_ok_iff cfg s sz num
+
+/-- object size, chunk size in bytes (page rounding), objects per chunk, initial chunk-list length and count of the
+    model are the values the C code computes in 64-bit arithmetic, provided `obj_num * obj_sz + page < 2^64` -/
+theorem initialize_sizes_are_the_codes (page : Nat) (s s' : MP) (sz num : Nat) (hp : 0 < page)
+    (hov : num * sz + page < 2 ^ 64)
+    (h : initPool { page := page, cls := CimbaModel.Generated.Mempool.chunk_list_size } s sz num = .ok s') :
+    s'.objSz = (CimbaModel.Generated.Mempool.initialize_sizes page s sz num).objSz ∧
+    s'.incrSz = (CimbaModel.Generated.Mempool.initialize_sizes page s sz num).incrSz ∧
+    s'.incrNum = (CimbaModel.Generated.Mempool.initialize_sizes page s sz num).incrNum ∧
+    s'.listLen = (CimbaModel.Generated.Mempool.initialize_sizes page s sz num).listLen ∧
+    s'.listCnt = (CimbaModel.Generated.Mempool.initialize_sizes page s sz num).listCnt :=
+  initPool_sizes_eq page s s' sz num hp hov h
 
 /-! ### live objects: aligned, inside their chunk with `obj_sz` bytes, pairwise disjoint -/
 
